@@ -35,6 +35,7 @@ from _griffe.docstrings.models import (
 )
 from _griffe.docstrings.utils import docstring_warning, parse_docstring_annotation
 from _griffe.enumerations import DocstringSectionKind, LogLevel
+from _griffe.exceptions import AliasResolutionError, CyclicAliasError
 
 if TYPE_CHECKING:
     from re import Pattern
@@ -284,7 +285,7 @@ def _read_attributes_section(
         else:
             name = name_with_type
             annotation = None
-            with suppress(AttributeError, KeyError, TypeError):
+            with suppress(AttributeError, KeyError, TypeError, ValueError, AliasResolutionError, CyclicAliasError):
                 # Use subscript syntax to fetch annotation from inherited members too.
                 annotation = docstring.parent[name].annotation  # type: ignore[index]
 
